@@ -1003,6 +1003,26 @@ func (e *Engine) orderProbe() {
 			rels = append(rels, e.S.IDs[t])
 		}
 	}
+	// the first World.Stats() report of a relation node that already has several tables of different sizes (in a
+	// scratch world: the run's own world has usually been reported on before)
+	for t, reg := range e.S.Reg {
+		if !reg || !e.P.Types[t].IsRelation() || e.P.Types[t].IsPtr() {
+			continue
+		}
+		sw := ecs.NewWorld(ecs.NewConfig().WithCapacityIncrement(8))
+		rid := ecs.TypeID(&sw, e.S.Types[t])
+		b := ecs.NewBuilder(&sw, rid).WithRelation(rid)
+		for i := 1; i <= 5; i++ {
+			b.NewBatch(i, sw.NewEntity())
+		}
+		st := sw.Stats()
+		for i := range st.Nodes {
+			for j := range st.Nodes[i].Archetypes {
+				e.log.U64(uint64(st.Nodes[i].Archetypes[j].Size))
+			}
+		}
+		break
+	}
 	if len(rels) < 2 {
 		return
 	}
